@@ -165,7 +165,7 @@ for _k, _fs in OTHER_TEXT.items():
 MORE_TEXT = {'C14': ['TraefikOidc_cacheVerifiedToken', 'New'], 'C20': ['createDefaultHTTPClient'], 'C15': ['TraefikOidc_buildAuthURL', 'TraefikOidc_buildURLWithParams', 'BuildLogoutURL', 'New'], 'C11': ['BuildLogoutURL'], 'C05': ['TraefikOidc_buildURLWithParams', 'New'], 'C01': ['New'], 'C19': ['New'], 'C10': ['New'], 'C09': ['New'], 'C03': ['TraefikOidc_buildAuthURL']}
 for _k, _fs in MORE_TEXT.items():
     PROPS[_k]['facts'] = list(PROPS[_k].get('facts', [])) + ['text_' + _f for _f in _fs if 'text_' + _f not in PROPS[_k].get('facts', [])]
-HELPER_TEXT = {'C02': ['TraefikOidc_updateMetadataEndpoints', 'TraefikOidc_verifyToken', 'fetchJWKS', 'rsaJWKToPEM', 'ecJWKToPEM'], 'C05': ['fetchJWKS', 'TraefikOidc_startTokenCleanup', 'createStringMap'], 'C06': ['createStringMap', 'New', 'SessionData_GetEmail', 'SessionData_SetEmail'], 'C01': ['createStringMap', 'Config_Validate'], 'C03': ['SessionData_GetCSRF', 'SessionData_SetCSRF', 'SessionData_GetNonce', 'SessionData_SetNonce', 'SessionData_GetCodeVerifier', 'SessionData_SetCodeVerifier', 'deriveCodeChallenge', 'generateCodeVerifier', 'generateNonce', 'TraefikOidc_ExchangeCodeForToken', 'TraefikOidc_exchangeCodeForToken', 'TraefikOidc_exchangeTokens'], 'C04': ['TraefikOidc_ExchangeCodeForToken', 'TraefikOidc_exchangeCodeForToken', 'TraefikOidc_exchangeTokens', 'SessionData_SetEmail', 'SessionData_GetIncomingPath', 'SessionData_SetIncomingPath'], 'C07': ['SessionData_GetCSRF', 'SessionData_SetCSRF', 'SessionData_GetNonce', 'SessionData_SetNonce', 'SessionData_GetCodeVerifier', 'SessionData_SetCodeVerifier', 'SessionData_GetEmail', 'SessionData_SetEmail', 'SessionData_GetIncomingPath', 'SessionData_SetIncomingPath'], 'C08': ['TraefikOidc_GetNewTokenWithRefreshToken', 'TraefikOidc_getNewTokenWithRefreshToken', 'TraefikOidc_exchangeTokens', 'SessionData_SetEmail', 'SessionData_GetEmail'], 'C09': ['Config_Validate', 'CreateConfig'], 'C10': ['handleError'], 'C11': ['TraefikOidc_RevokeTokenWithProvider'], 'C12': ['NewCache', 'Cache_Close', 'Cache_startAutoCleanup', 'autoCleanupRoutine'], 'C13': ['NewCache', 'Cache_Close', 'Cache_startAutoCleanup', 'autoCleanupRoutine'], 'C14': ['NewTokenCache', 'cleanupReplayCache', 'TraefikOidc_startTokenCleanup', 'TraefikOidc_RevokeTokenWithProvider'], 'C15': ['Config_Validate', 'isValidSecureURL'], 'C16': ['handleError'], 'C17': ['Config_Validate'], 'C19': ['Config_Validate', 'CreateConfig'], 'C20': ['NewMetadataCache', 'MetadataCache_Close', 'MetadataCache_startAutoCleanup', 'isValidSecureURL']}
+HELPER_TEXT = {'C02': ['TraefikOidc_updateMetadataEndpoints', 'TraefikOidc_verifyToken', 'fetchJWKS', 'rsaJWKToPEM', 'ecJWKToPEM'], 'C05': ['fetchJWKS', 'TraefikOidc_startTokenCleanup', 'createStringMap'], 'C06': ['createStringMap', 'New', 'SessionData_GetEmail', 'SessionData_SetEmail'], 'C01': ['createStringMap', 'Config_Validate'], 'C03': ['SessionData_GetCSRF', 'SessionData_SetCSRF', 'SessionData_GetNonce', 'SessionData_SetNonce', 'SessionData_GetCodeVerifier', 'SessionData_SetCodeVerifier', 'deriveCodeChallenge', 'generateCodeVerifier', 'generateNonce', 'generateSecureRandomString', 'TraefikOidc_ExchangeCodeForToken', 'TraefikOidc_exchangeCodeForToken', 'TraefikOidc_exchangeTokens'], 'C04': ['TraefikOidc_ExchangeCodeForToken', 'TraefikOidc_exchangeCodeForToken', 'TraefikOidc_exchangeTokens', 'SessionData_SetEmail', 'SessionData_GetIncomingPath', 'SessionData_SetIncomingPath'], 'C07': ['SessionData_GetCSRF', 'SessionData_SetCSRF', 'SessionData_GetNonce', 'SessionData_SetNonce', 'SessionData_GetCodeVerifier', 'SessionData_SetCodeVerifier', 'SessionData_GetEmail', 'SessionData_SetEmail', 'SessionData_GetIncomingPath', 'SessionData_SetIncomingPath'], 'C08': ['TraefikOidc_GetNewTokenWithRefreshToken', 'TraefikOidc_getNewTokenWithRefreshToken', 'TraefikOidc_exchangeTokens', 'SessionData_SetEmail', 'SessionData_GetEmail'], 'C09': ['Config_Validate', 'CreateConfig'], 'C10': ['handleError'], 'C11': ['TraefikOidc_RevokeTokenWithProvider'], 'C12': ['NewCache', 'Cache_Close', 'Cache_startAutoCleanup', 'autoCleanupRoutine'], 'C13': ['NewCache', 'Cache_Close', 'Cache_startAutoCleanup', 'autoCleanupRoutine'], 'C14': ['NewTokenCache', 'cleanupReplayCache', 'TraefikOidc_startTokenCleanup', 'TraefikOidc_RevokeTokenWithProvider'], 'C15': ['Config_Validate', 'isValidSecureURL'], 'C16': ['handleError'], 'C17': ['Config_Validate'], 'C19': ['Config_Validate', 'CreateConfig'], 'C20': ['NewMetadataCache', 'MetadataCache_Close', 'MetadataCache_startAutoCleanup', 'isValidSecureURL']}
 for _k, _fs in HELPER_TEXT.items():
     PROPS[_k]['facts'] = list(PROPS[_k].get('facts', [])) + ['text_' + _f for _f in _fs if 'text_' + _f not in PROPS[_k].get('facts', [])]
 for _k, _fs in SHAPES.items():
